@@ -122,6 +122,20 @@ CHECKS = {
          'reference table = my transcription of the firmware packet layouts (port, channel, type byte, struct, scale, sign, '
          'version switches); numpy.float32 as rounding reference; documented clamps accepted; physical units not judged',
          'DESIGN.md §3 C08', 'enumeration'),
+ 'C04': ('exploration',
+         'exhaustive input enumeration plus stateless deviation-bounded exploration of user-thread schedules and reply delays on the real parameter code',
+         'Part A: all 10 firmware parameter types x both id widths (protocol 10 / 3) x a value alphabet (type min/max, one '
+         'beyond, -1, 0, 1, 2, 2^64, decimal strings; float specials and overflow) through the real set_value / '
+         'request_param_update: exact wire bytes, refusal without any transmission, cache, get_value and each of the three '
+         'callback kinds exactly once with str(device value). Part B: 14 thread sets (2-3 user threads issuing set / read / '
+         'persistent store / clear / get_state / get_default on 3 parameters of equal width) explored with every single '
+         'deviation (quick) / every pair (thorough) among reply delayed past the retry timer, unsolicited value-changed '
+         'packet at any point, and any other runnable thread at any synchronisation point: wire order equals queue order, '
+         'no request is sent before the previous one was answered, every callback fires exactly once with the answer the '
+         'reference device model gives for that very request, caches equal the device, nothing left blocked.',
+         'SimCF parameter-port model; not demanded: non-integral values for integer types, default 2 of a 1-byte parameter '
+         '(protocol ambiguity), a duplicate reply answering the next request for the same parameter',
+         'DESIGN.md §3 C04', 'E3'),
 }
 
 ALL = ['C%02d' % i for i in range(1, 21)]
